@@ -1,48 +1,106 @@
 package main
 
-// collections iterators (Map.Iterate + Iterator.Valid/Next/KeyValue/Key/Value/Close), A-iter:
-// the iterator is abstracted to "any sequence of entries": Valid() is an arbitrary boolean at every call and
-// KeyValue() an arbitrary (key, value) pair with an arbitrary error. Whatever a loop over the iterator proves with
-// this summary it proves for every content and order of the real iterator (over-approximation: the link between the
-// entries yielded and the stored map is dropped, so facts like "the key has the prefix asked for" are not available —
-// the code under contract checks them itself where it needs them).
+// collections iterators (Map.Iterate / KeySet.Iterate + Valid/Next/KeyValue/Key/Value/Close), A-iter:
+// the iterator is abstracted to "any sequence of entries that were stored when the iterator was created": Valid() is an
+// arbitrary boolean at every call, Key()/KeyValue() yield an arbitrary key of the collection's domain at creation time
+// with the value stored for it then, and an arbitrary error. Whatever a loop over the iterator proves with this summary
+// it proves for every order, range and prefix of the real iterator, provided the loop does not write to the collection
+// it iterates (assumption, recorded in the notes); completeness of the iteration ("every entry is visited") is NOT
+// available, so clauses that need it cannot be proved this way.
 
 import (
+	"fmt"
 	"go/types"
 )
 
+type iterSnap struct {
+	ci       *CollInfo
+	dom, val string
+}
+
+var iterSnaps = map[string]*iterSnap{}
+
 func init() {
 	R := summaryRegistry
-	R["(cosmossdk.io/collections.Map).Iterate"] = func(x *Exec, s *State, args []*Val, resT types.Type) (*Val, bool) {
+	iterate := func(x *Exec, s *State, args []*Val, resT types.Type) (*Val, bool) {
 		tup, ok := resT.(*types.Tuple)
 		if !ok || tup.Len() != 2 {
 			return nil, false
 		}
-		x.c.note("A-iter: collections.Map.Iterate yields an arbitrary sequence of entries")
-		it := x.freshVal(s, tup.At(0).Type(), "iter")
+		x.c.note("A-iter: collections iterator yields an arbitrary sequence of the entries stored at its creation (loop must not write the iterated collection; completeness not modelled)")
+		it := x.fresh(s, "iter", "Int")
+		s.assume(not(eq(it, "0")))
+		if recv := args[0]; recv.Tag != nil && (recv.Tag.Kind == tagColl || recv.Tag.Kind == tagCollPtr) {
+			ci := x.collInfo(recv.Tag)
+			sn := &iterSnap{ci: ci}
+			switch ci.Kind {
+			case "Map":
+				sn.dom = x.stGet(s, ci.Name+".dom", fmt.Sprintf("(Array %s Bool)", ci.KSort))
+				sn.val = x.stGet(s, ci.Name+".val", fmt.Sprintf("(Array %s %s)", ci.KSort, ci.VSort))
+			case "KeySet":
+				sn.dom = x.stGet(s, ci.Name+".dom", fmt.Sprintf("(Array %s Bool)", ci.KSort))
+			}
+			iterSnaps[it] = sn
+		}
 		e := x.fresh(s, "iter_err", "Int")
-		return &Val{T: resT, Tup: []*Val{it, {T: errType, S: e}}}, true
+		return &Val{T: resT, Tup: []*Val{x.valOf(s, tup.At(0).Type(), it), {T: errType, S: e}}}, true
 	}
-	R["(cosmossdk.io/collections.Iterator).Valid"] = func(x *Exec, s *State, args []*Val, resT types.Type) (*Val, bool) {
+	R["(cosmossdk.io/collections.Map).Iterate"] = iterate
+	R["(cosmossdk.io/collections.KeySet).Iterate"] = iterate
+	valid := func(x *Exec, s *State, args []*Val, resT types.Type) (*Val, bool) {
 		return &Val{T: resT, S: x.fresh(s, "iter_valid", "Bool")}, true
 	}
-	R["(cosmossdk.io/collections.Iterator).Next"] = func(x *Exec, s *State, args []*Val, resT types.Type) (*Val, bool) {
-		return &Val{T: resT}, true
-	}
-	R["(cosmossdk.io/collections.Iterator).Close"] = func(x *Exec, s *State, args []*Val, resT types.Type) (*Val, bool) {
+	next := func(x *Exec, s *State, args []*Val, resT types.Type) (*Val, bool) { return &Val{T: resT}, true }
+	closeIt := func(x *Exec, s *State, args []*Val, resT types.Type) (*Val, bool) {
 		return &Val{T: resT, S: "0"}, true
 	}
+	snapOf := func(x *Exec, s *State, it *Val) *iterSnap { return iterSnaps[x.termOf(s, it)] }
+	// Key(): (K, error)
+	key := func(x *Exec, s *State, args []*Val, resT types.Type) (*Val, bool) {
+		tup, ok := resT.(*types.Tuple)
+		if !ok || tup.Len() != 2 {
+			return nil, false
+		}
+		kT := tup.At(0).Type()
+		k := x.fresh(s, "iter_key", x.c.sortOf(kT))
+		x.assumeInv(s, kT, k)
+		e := x.fresh(s, "iter_key_err", "Int")
+		if sn := snapOf(x, s, args[0]); sn != nil && sn.dom != "" && x.c.sortOf(kT) == sn.ci.KSort {
+			s.assume(implies(eq(e, "0"), sx("select", sn.dom, k)))
+		}
+		return &Val{T: resT, Tup: []*Val{x.valOf(s, kT, k), {T: errType, S: e}}}, true
+	}
+	// KeyValue(): (KeyValue[K,V], error): an opaque record whose Key / Value fields are read through the engine's
+	// uninterpreted field functions; the membership fact is stated on those.
 	kv := func(x *Exec, s *State, args []*Val, resT types.Type) (*Val, bool) {
 		tup, ok := resT.(*types.Tuple)
 		if !ok || tup.Len() != 2 {
 			return nil, false
 		}
-		v := x.freshVal(s, tup.At(0).Type(), "iter_kv")
-		x.assumeInv(s, tup.At(0).Type(), x.termOf(s, v))
+		rT := tup.At(0).Type()
+		v := x.freshVal(s, rT, "iter_kv")
+		t := x.termOf(s, v)
+		x.assumeInv(s, rT, t)
 		e := x.fresh(s, "iter_kv_err", "Int")
+		if sn := snapOf(x, s, args[0]); sn != nil && sn.dom != "" {
+			if ki := fieldIndex(rT, "Key"); ki >= 0 {
+				if kt, kT := x.stepTerm(rT, t, Step{Kind: stField, Field: ki}); kT != nil && x.c.sortOf(kT) == sn.ci.KSort {
+					s.assume(implies(eq(e, "0"), sx("select", sn.dom, kt)))
+					if vi := fieldIndex(rT, "Value"); vi >= 0 && sn.val != "" {
+						if vt, vT := x.stepTerm(rT, t, Step{Kind: stField, Field: vi}); vT != nil && x.c.sortOf(vT) == sn.ci.VSort {
+							s.assume(implies(eq(e, "0"), eq(vt, sx("select", sn.val, kt))))
+						}
+					}
+				}
+			}
+		}
 		return &Val{T: resT, Tup: []*Val{v, {T: errType, S: e}}}, true
 	}
+	for _, it := range []string{"Iterator", "KeySetIterator"} {
+		R["(cosmossdk.io/collections."+it+").Valid"] = valid
+		R["(cosmossdk.io/collections."+it+").Next"] = next
+		R["(cosmossdk.io/collections."+it+").Close"] = closeIt
+		R["(cosmossdk.io/collections."+it+").Key"] = key
+	}
 	R["(cosmossdk.io/collections.Iterator).KeyValue"] = kv
-	R["(cosmossdk.io/collections.Iterator).Key"] = kv
-	R["(cosmossdk.io/collections.Iterator).Value"] = kv
 }
